@@ -29,7 +29,7 @@ end C01
 /-! ## 1. `write_entry` -/
 
 /-- **C01.2** `writeEntry_listing`.  On a directory of well-formed shape, writing an entry for a name of 1 … 255 units
-    (last unit neither `0x0000` nor `0xFFFF`) with a file-class short slot inserts EXACTLY ONE entry
+    (none of them `0x0000`) with a file-class short slot inserts EXACTLY ONE entry
     `⟨sfn, units, p, p + n⟩` (`p = findFree slots n`, `n = ⌈len/13⌉ + 1`) into the listing, between the entries ending at
     or before `p` and those beginning at or after `p + n`; all other entries are unchanged (same short slot, same
     units, same range); every slot outside `[p, p + n)` is byte-identical, the slots inside are the generated run and
@@ -37,7 +37,7 @@ end C01
     at the end marker, or (the Rust quirk) starts inside the deleted run that precedes the end marker. -/
 theorem writeEntry_listing (alloc : Bool) (slots : List (List Nat)) (units sfn : List Nat) (hs : Shape slots)
     (h1 : 1 ≤ units.length) (h255 : units.length ≤ 255) (hu : ∀ x ∈ units, x < 65536)
-    (hne : units ≠ []) (hlast : isPad (units.getLast hne) = false) (hsfn : slotClass sfn = .file) :
+    (hnz : ∀ x ∈ units, x ≠ 0) (hsfn : slotClass sfn = .file) :
     let n := numParts units.length + 1
     let p := findFree slots n
     (∃ L1 L2, readDirEntries alloc true slots = L1 ++ L2 ∧
@@ -48,7 +48,7 @@ theorem writeEntry_listing (alloc : Bool) (slots : List (List Nat)) (units sfn :
     (∀ k, k < n → (writeEntry slots units sfn).getD (p + k) [] = (entrySlots units sfn).getD k []) ∧
     Shape (writeEntry slots units sfn) := by
   intro n p
-  obtain ⟨L1, L2, e1, e2, e3, e4, e5⟩ := writeEntry_insert alloc slots units sfn hs h1 h255 hu hne hlast hsfn
+  obtain ⟨L1, L2, e1, e2, e3, e4, e5⟩ := writeEntry_insert alloc slots units sfn hs h1 h255 hu hnz hsfn
   obtain ⟨b1, b2, b3⟩ := writeEntry_bytes slots units sfn h1 h255 hu
   exact ⟨⟨L1, L2, e1, e2, e3, e4⟩, b1, b2, b3, e5⟩
 
@@ -57,13 +57,13 @@ theorem writeEntry_dirWf (upper : Char → List Char) (slots : List (List Nat)) 
     (hwf : DirWf upper slots) (hname : name ≠ [])
     (h1 : 1 ≤ (Names.encodeUtf16 name).length) (h255 : (Names.encodeUtf16 name).length ≤ 255)
     (hu : ∀ x ∈ Names.encodeUtf16 name, x < 65536)
-    (hne : Names.encodeUtf16 name ≠ []) (hlast : isPad ((Names.encodeUtf16 name).getLast hne) = false)
+    (hnz : ∀ x ∈ Names.encodeUtf16 name, x ≠ 0)
     (hsfn : slotClass sfn = .file)
     (hnf : findEntry upper slots name = none)
     (hraw : ∀ e ∈ listing slots, sfnName e.sfn ≠ sfnName sfn)
     (halias : ∀ e ∈ listing slots, matchesName upper e (Names.aliasDisplay (sfnName sfn)) = false) :
     DirWf upper (writeEntry slots (Names.encodeUtf16 name) sfn) :=
-  create_wf upper slots name sfn hwf hname h1 h255 hu hne hlast hsfn hnf hraw halias
+  create_wf upper slots name sfn hwf hname h1 h255 hu hnz hsfn hnf hraw halias
 
 /-- placement 1: a 1-slot name (2 slots) goes into the reclaimed run of three deleted slots at index 1 -/
 example : findFree C01.dir0 2 = 1 ∧
@@ -167,9 +167,9 @@ theorem dir_refines_map (upper : Char → List Char) (slots : List (List Nat)) (
     (∀ q, amFind upper (absDir slots) q = (findEntry upper slots q).map absEntry) ∧
     -- create
     (∀ name sfn, amFind upper (absDir slots) name ≠ none → createEntry upper slots name sfn = .error .alreadyExists) ∧
-    (∀ name sfn (hne : Names.encodeUtf16 name ≠ []), amFind upper (absDir slots) name = none →
+    (∀ name sfn, amFind upper (absDir slots) name = none →
       1 ≤ (Names.encodeUtf16 name).length → (Names.encodeUtf16 name).length ≤ 255 →
-      (∀ x ∈ Names.encodeUtf16 name, x < 65536) → isPad ((Names.encodeUtf16 name).getLast hne) = false →
+      (∀ x ∈ Names.encodeUtf16 name, x < 65536) → (∀ x ∈ Names.encodeUtf16 name, x ≠ 0) →
       slotClass sfn = .file →
       ∃ slots', createEntry upper slots name sfn = .ok slots' ∧
         (absDir slots').Perm ((Names.encodeUtf16 name, sfn) :: absDir slots) ∧ Shape slots') ∧
@@ -183,10 +183,10 @@ theorem dir_refines_map (upper : Char → List Char) (slots : List (List Nat)) (
       renameEntry upper slots src dst alias = .error .notFound) ∧
     (∀ src dst alias e d, findEntry upper slots src = some e → findEntry upper slots dst = some d →
       renameEntry upper slots src dst alias = if d.endIdx = e.endIdx then .ok slots else .error .alreadyExists) ∧
-    (∀ src dst alias e (hne : Names.encodeUtf16 dst ≠ []), findEntry upper slots src = some e →
+    (∀ src dst alias e, findEntry upper slots src = some e →
       findEntry upper slots dst = none →
       1 ≤ (Names.encodeUtf16 dst).length → (Names.encodeUtf16 dst).length ≤ 255 →
-      (∀ x ∈ Names.encodeUtf16 dst, x < 65536) → isPad ((Names.encodeUtf16 dst).getLast hne) = false →
+      (∀ x ∈ Names.encodeUtf16 dst, x < 65536) → (∀ x ∈ Names.encodeUtf16 dst, x ≠ 0) →
       slotClass (renamedSfn e.sfn alias) = .file →
       ∃ slots', renameEntry upper slots src dst alias = .ok slots' ∧
         (absDir slots').Perm
@@ -200,8 +200,8 @@ theorem dir_refines_map (upper : Char → List Char) (slots : List (List Nat)) (
     cases hf : findEntry upper slots name with
     | none => exact absurd ((hnone name).2 hf) h
     | some e => rfl
-  · intro name sfn hne h h1 h255 hu hlast hsfn
-    obtain ⟨c1, c2⟩ := absDir_create slots _ sfn hs h1 h255 hu hne hlast hsfn
+  · intro name sfn h h1 h255 hu hnz hsfn
+    obtain ⟨c1, c2⟩ := absDir_create slots _ sfn hs h1 h255 hu hnz hsfn
     exact ⟨_, by unfold createEntry; rw [(hnone name).1 h], c1, c2⟩
   · intro name h
     unfold removeEntry; rw [(hnone name).1 h]
@@ -215,8 +215,8 @@ theorem dir_refines_map (upper : Char → List Char) (slots : List (List Nat)) (
     unfold renameEntry; rw [(hnone src).1 h]
   · intro src dst alias e d h1 h2
     unfold renameEntry; rw [h1, h2]
-  · intro src dst alias e hne hsrc hdst h1 h255 hu hlast hcls
-    obtain ⟨r1, r2⟩ := absDir_rename upper slots src dst alias hs e hsrc h1 h255 hu hne hlast hcls
+  · intro src dst alias e hsrc hdst h1 h255 hu hnz hcls
+    obtain ⟨r1, r2⟩ := absDir_rename upper slots src dst alias hs e hsrc h1 h255 hu hnz hcls
     exact ⟨_, by unfold renameEntry; rw [hsrc, hdst], r1, r2⟩
 
 /-! ## 5. completeness of `find_free_entries` for runs (C05.4) -/
@@ -270,7 +270,7 @@ example : DirWf Names.upperAscii
     (writeEntry [C01.sfnOf "A          ", C01.zero] (Names.encodeUtf16 "bb".toList) (C01.sfnOf "BB         ")) := by
   have hl : listing [C01.sfnOf "A          ", C01.zero] = [⟨C01.sfnOf "A          ", [], 0, 1⟩] := by decide +kernel
   refine writeEntry_dirWf Names.upperAscii _ "bb".toList _ C01.dirA_wf (by decide) (by decide) (by decide) (by decide)
-    (by decide) (by decide) (by decide) (by decide +kernel) ?_ ?_
+    (by decide) (by decide) (by decide +kernel) ?_ ?_
   · intro e he
     rw [hl, List.mem_singleton] at he
     rw [he]; decide
